@@ -205,7 +205,7 @@ template <int bs> static std::string cpr_block(Arrays &a, long active) {
     os << "}"; return os.str() + " " + g_recorded;
 }
 static std::string cpr_body(Tok &t) {
-    std::string kind = t.s(); long bs = t.i(), active = t.i();
+    std::string kind = t.s(); long bs = t.i(), active = t.i(); t.i();   // last: model-side flag (which init() the tree has)
     Arrays a(t);
     auto A = std::tie(a.n, a.ptr, a.col, a.val);
     g_recorded.clear();
@@ -253,7 +253,7 @@ template <int bs> static std::string cprdrs_block(Arrays &a, long active, double
     os << "}"; return os.str() + " " + g_recorded;
 }
 static std::string cprdrs_body(Tok &t) {
-    std::string kind = t.s(); long bs = t.i(), active = t.i();
+    std::string kind = t.s(); long bs = t.i(), active = t.i(); t.i();   // last: model-side flag
     double eps_dd = (double)t.q(), eps_ps = (double)t.q();
     std::vector<Q> wq = t.vec(); std::vector<double> w; for (auto &x : wq) w.push_back((double)x);
     Arrays a(t);
